@@ -573,6 +573,44 @@ pub fn generate_specs(prop: &dyn Prop, tier: Tier) -> Vec<(&'static str, Spec)> 
     out
 }
 
+/// Oracle self-test: the derivative-based reference and the recursion-based reference must agree
+/// on every case. A disagreement is an infrastructure failure (exit 2), never a verdict.
+pub fn oracle_selftest(prop: &dyn Prop, specs: &[(&'static str, Spec)], tier: Tier) -> Result<u64, String> {
+    let mut n = 0u64;
+    let step = (specs.len() / 40).max(1);
+    for (si, (pname, spec)) in specs.iter().enumerate().step_by(step) {
+        let (ctx, mut comp) = match make_ctx(si, pname, spec.clone()) {
+            Some(x) => x,
+            None => continue,
+        };
+        let mut other = oracle::ends::EndsRef::new(&ctx.flat);
+        let mut r = runner(seed(), &format!("{}-selftest-{}", prop.id(), si));
+        let cases = prop.cases(&ctx, &mut comp, &mut r, tier);
+        let cstep = (cases.len() / 150).max(1);
+        for c in cases.iter().step_by(cstep) {
+            if c.input.chars().count() > 400 {
+                continue;
+            }
+            for v in prop.variants(c) {
+                let a = run_model(&mut comp, &v);
+                let b = run_model(&mut other, &v);
+                n += 1;
+                if a.trace != b.trace || a.facts != b.facts {
+                    return Err(format!(
+                        "the two reference models disagree on {:?} script {:?} for\n{}\nderivatives: {}\nrecursion:   {}",
+                        v.input,
+                        v.script,
+                        spec.print_macro("Lexer"),
+                        fmt_run(&a.trace.a),
+                        fmt_run(&b.trace.a)
+                    ));
+                }
+            }
+        }
+    }
+    Ok(n)
+}
+
 pub struct Prepared {
     pub specs: Vec<(&'static str, Spec)>,
     pub usable: Vec<usize>,
@@ -628,6 +666,19 @@ pub fn run_collect(prop: &dyn Prop, tier: Tier) -> (Evidence, i32) {
     let mut ev = Evidence::new(prop.id(), tier);
     let specs = generate_specs(prop, tier);
     let n_specs = specs.len();
+    let selftest_cases = match oracle_selftest(prop, &specs, tier) {
+        Ok(n) => n,
+        Err(e) => {
+            let msg = format!("oracle self-test failed (no verdict): {}", e);
+            eprintln!("INFRA-ERROR: {}", msg);
+            println!("INFRA-ERROR: oracle self-test failed (no verdict)");
+            ev.set("evaluations", json!(1));
+            ev.set("distinct_nontrivial", json!(0));
+            ev.set("rule", json!(prop.rule()));
+            ev.set("samples", json!([msg]));
+            return (ev, 2);
+        }
+    };
     let crate_name = format!("{}_{}_{}", prop.id().to_lowercase(), tier.name(), seed());
     let prep = prepare(&crate_name, specs);
     eprintln!(
@@ -809,8 +860,9 @@ pub fn run_collect(prop: &dyn Prop, tier: Tier) -> (Evidence, i32) {
     ev.set("class_histogram", json!(t.facts));
     ev.set("build_secs", json!(prep.build.build_secs));
     ev.set("exhaustive", json!(false));
+    ev.set("oracle_selftest_cases", json!(selftest_cases));
     ev.assumptions = vec![
-        "rustc, cargo, proptest, unicode-width and the oracle crate (reference model) are trusted".into(),
+        "rustc, cargo, proptest, unicode-width and the oracle crate (reference model) are trusted; the reference is cross-checked on a sample of this run's cases against a second, independently written reference (oracle_selftest_cases)".into(),
         "definitions are well-formed by construction: no nullable rule, no empty class, `$` only in tail position".into(),
     ];
     ev.violations = n_viol_total as i64;
